@@ -178,19 +178,27 @@ func (w *c12World) deliverLive(msg sdk.Msg, what string) {
 
 func dec(s string) sdk.Dec { return sdk.MustNewDecFromStr(s) }
 
-var c12PrefixOnce bool
-
 func c12Build(t *testing.T) *c12World {
 	w := &c12World{t: t}
-	if !c12PrefixOnce {
-		// the designated wasm contracts are comdex1… addresses: use the chain's real bech32 prefix
-		chain.SetAccountAddressPrefixes()
-		c12PrefixOnce = true
+	// the designated wasm contracts are comdex1… addresses: use the chain's real bech32 prefix for the duration of the
+	// test (not sealed, restored afterwards: other tests of this binary keep the default prefix)
+	cfg := sdk.GetConfig()
+	if cfg.GetBech32AccountAddrPrefix() != chain.AccountAddressPrefix {
+		oldA, oldP := cfg.GetBech32AccountAddrPrefix(), cfg.GetBech32AccountPubPrefix()
+		cfg.SetBech32PrefixForAccount(chain.AccountAddressPrefix, chain.AccountPubKeyPrefix)
+		sdk.SetAddrCacheEnabled(false) // no comdex1… string may survive in the address cache
+		t.Cleanup(func() {
+			sdk.GetConfig().SetBech32PrefixForAccount(oldA, oldP)
+			sdk.SetAddrCacheEnabled(true)
+		})
 	}
 	w.app = chain.Setup(t, false)
 	w.t0 = time.Unix(1700000000, 0).UTC()
 	w.ctx = w.app.BaseApp.NewContext(false, tmproto.Header{Height: 10, Time: w.t0, ChainID: "comdex-dev-1"})
 	w.A, w.B, w.C, w.D, w.admin = c12KeyAddr("A"), c12KeyAddr("B"), c12KeyAddr("C"), c12KeyAddr("D"), c12KeyAddr("admin")
+	if len(c12Stranger) == 20 {
+		w.C = sdk.AccAddress(c12Stranger)
+	}
 	for name, key := range w.app.CommitMultiStore().(*rootmulti.Store).StoreKeysByName() {
 		_ = name
 		if k, ok := key.(*storetypes.KVStoreKey); ok {
@@ -590,10 +598,23 @@ type c12Case struct {
 	mk      func(w *c12World, s sdk.AccAddress) sdk.Msg
 }
 
-func coin(d string, a int64) sdk.Coin { return sdk.NewCoin(d, sdk.NewInt(a)) }
+// c12K: seeded factor (1..3) applied to the small operation amounts (1000000 units) of the catalogue
+var c12K int64 = 1
+
+func coin(d string, a int64) sdk.Coin {
+	if a == 1000000 {
+		a *= c12K
+	}
+	return sdk.NewCoin(d, sdk.NewInt(a))
+}
 
 func c12Catalogue() []c12Case {
-	i := sdk.NewInt
+	i := func(x int64) sdk.Int {
+		if x == 1000000 {
+			x *= c12K
+		}
+		return sdk.NewInt(x)
+	}
 	return []c12Case{
 		// vault
 		{"vault.MsgCreate", "B", false, false, "vault", "a1a2", func(w *c12World, s sdk.AccAddress) sdk.Msg {
@@ -808,9 +829,24 @@ func (w *c12World) emit(tr *Trace, c c12Case, scnName string, signer string, adm
 }
 
 // TestC12: owner-only matrix + wasm sender matrix + kill switch.
+func c12Seed(tr *Trace) {
+	rng := NewRng(seed())
+	c12K = int64(1 + rng.Intn(3))
+	c12Stranger = make([]byte, 20)
+	for j := range c12Stranger {
+		c12Stranger[j] = byte(rng.Intn(256))
+	}
+	tr.Set("amount_factor", c12K)
+	tr.Set("stranger", hex.EncodeToString(c12Stranger))
+}
+
+// c12Stranger: the unfunded non-owner signer "C" (seeded)
+var c12Stranger []byte
+
 func TestC12(t *testing.T) {
 	tr := OpenTrace(t, "c12.trace")
 	defer tr.Close(t)
+	c12Seed(tr)
 	w := c12Build(t)
 	cat := c12Catalogue()
 	states := []int{0, 30}
@@ -1149,6 +1185,7 @@ func c12Wasm(t *testing.T, tr *Trace, w *c12World) {
 func TestC14(t *testing.T) {
 	tr := OpenTrace(t, "c14.trace")
 	defer tr.Close(t)
+	c12Seed(tr)
 	w := c12Build(t)
 	cat := c12Catalogue()
 	prices := []string{"all", "none"}
